@@ -218,9 +218,10 @@ def flush (s : St) : St :=
   | _ =>
     { s with db := some (match s.cur with | .val c => c | .absent => none), cs := .noHistory,
              expired := false,
-             -- the dependency sync writes the foreign-key attribute only for a present reference
-             -- (or for a persistent row being updated)
-             fk := s.fk || s.db.isSome || (match s.cur with | .val _ => true | .absent => false) }
+             -- the dependency sync writes the foreign-key attribute when the history has an added
+             -- or a deleted reference: a present current value, or a recorded original
+             fk := s.fk || (match s.cur with | .val _ => true | .absent => false) ||
+                   (match s.cs with | .val _ => true | _ => false) }
 
 inductive Op where
   | set (v : SVal)
